@@ -59,6 +59,8 @@ type config struct {
 	tcpbackends *hatypes.TCPBackends
 	tcpservices *hatypes.TCPServices
 	userlists   *hatypes.Userlists
+	// server aliases the backend maps were last built with, see WriteBackendMaps()
+	aliasesWritten map[string]hatypes.HostAliasConfig
 }
 
 type options struct {
@@ -483,12 +485,37 @@ func (c *config) hostAliases() map[string]hatypes.HostAliasConfig {
 // link to the backend maps.
 func (c *config) WriteBackendMaps() error {
 	// TODO rename HostMap types to HAProxyMap
+	var hostAliases map[string]hatypes.HostAliasConfig
+	if c.aliasesWritten == nil || c.hosts.Changed() {
+		// The alias a host answers to depends on the other hosts as well: a
+		// contended alias, or one that is also a declared hostname, moves to
+		// this host when the other one goes away, and the other way around,
+		// without this host or its backends being built again. The frontend
+		// maps follow it, so the path IDs of its backends need to follow too.
+		hostAliases = c.hostAliases()
+		for hostname, alias := range hostAliases {
+			if c.aliasesWritten[hostname] == alias {
+				continue
+			}
+			for _, path := range c.hosts.FindHost(hostname).Paths {
+				// only the backends that have path maps, the other ones don't change
+				if backend := c.backends.Items()[path.Backend.ID]; backend != nil && backend.NeedACL() {
+					c.backends.PathsChanged(backend)
+				}
+			}
+		}
+	}
 	if !c.backends.Changed() && len(c.backends.ItemsPathsChanged()) == 0 {
 		// backends are clean, maps are updated
+		if hostAliases != nil {
+			c.aliasesWritten = hostAliases
+		}
 		return nil
 	}
 	mapBuilder := hatypes.CreateMaps(c.global.MatchOrder)
-	hostAliases := c.hostAliases()
+	if hostAliases == nil {
+		hostAliases = c.hostAliases()
+	}
 	backends := make(map[string]*hatypes.Backend, len(c.backends.ItemsAdd()))
 	for id, backend := range c.backends.ItemsAdd() {
 		backends[id] = backend
@@ -528,7 +555,11 @@ func (c *config) WriteBackendMaps() error {
 			backend.PathsDefaultHostMap = pathsDefaultHostMap
 		}
 	}
-	return writeMaps(mapBuilder, c.options.mapsTemplate)
+	if err := writeMaps(mapBuilder, c.options.mapsTemplate); err != nil {
+		return err
+	}
+	c.aliasesWritten = hostAliases
+	return nil
 }
 
 func writeMaps(maps *hatypes.HostsMaps, template *template.Config) error {
@@ -582,6 +613,9 @@ func (c *config) Clear() {
 	// copying acme storages state, so storages that are not declared anymore
 	// can be removed from the acme queue when a full reconciliation happens
 	config.acmeData = c.acmeData.Clear()
+
+	// the backend maps on disk were built with these aliases
+	config.aliasesWritten = c.aliasesWritten
 
 	*c = *config
 }
